@@ -162,6 +162,20 @@ func forEachStdDoc(w *W, fn func(name string, text []byte)) {
 	w.Note(fmt.Sprintf("abstract documents: all %d trees with <= %d nodes (8 scalar kinds to depth 1, 3 below; keys {a,b,\"\"} incl. duplicates) x %d layouts", nTrees, ds.maxNodes, nLayouts))
 	w.Sample(fmt.Sprintf("tree sample: %q", last))
 
+	// strings of every length 0..70 whose LAST character is an escape (key and value)
+	w.Note("string tails: for every length 0..70 a key and a value ending in a \\u escape, a two-character escape and a surrogate pair (the decoder's end-of-window branches)")
+	tail := []byte("abcdefghijklmnopqrstuvwxyzABCDEFGHIJKLMNOPQRSTUVWXYZ0123456789abcdefghijklmnopqrstuvwxyz")
+	for l := 0; l <= 70; l++ {
+		w.res.States++
+		if !w.Mine() || w.Expired() || w.TooManyViolations() {
+			continue
+		}
+		for _, esc := range []string{`\u00e9`, `\n`, `\ud83d\ude00`, `\u0041`} {
+			text := []byte(`{"` + string(tail[:l]) + esc + `":["` + string(tail[:l]) + esc + `"]}`)
+			w.res.Transitions++
+			fn("string-tail-escape", text)
+		}
+	}
 	var depths []int
 	for d := 1; d <= 600; d++ {
 		depths = append(depths, d)
